@@ -47,16 +47,20 @@ family(
     tasks=[
         _t('a', [P('x')]),
         _t('g:b', [P('y', default=5)], [('a', 'name')], ['a']),
+        _t('pat', [], [('~(.*:)?a', 'name')], [], registry_pulls=['a']),     # a ~pattern input (own namespace only)
     ],
     rcs={
         'u1': dict(build='dict', mounts=[dict(ns=None, values={'x': 1})]),
+        # the same pipeline with the same values under two different namespaces: one computation, two names
+        'ml': dict(build='mounts-files', mounts=[dict(ns='left', values={'x': 1})]),
+        'mr': dict(build='mounts-files', mounts=[dict(ns='right', values={'x': 1})]),
         'm12': dict(build='mounts-files', mounts=[dict(ns='n1', values={'x': 1}), dict(ns='n2', values={'x': 2})]),
         'c21': dict(build='mounts-ctx', mounts=[dict(ns='n1', values={'x': 2}), dict(ns='n2', values={'x': 1})]),
         'c11': dict(build='mounts-ctx', mounts=[dict(ns='n1', values={'x': 1}), dict(ns='n2', values={'x': 1})]),
         # the pipeline is a PART of a multi-config YAML file, mounted twice by '#part as ns' references
         'p21': dict(build='mounts-ctx-multi', mounts=[dict(ns='n1', values={'x': 2}), dict(ns='n2', values={'x': 1})]),
     },
-    lists=[['u1'], ['m12'], ['c21'], ['c11'], ['p21'], ['u1', 'm12'], ['u1', 'p21']],
+    lists=[['u1'], ['m12'], ['c21'], ['c11'], ['p21'], ['u1', 'm12'], ['u1', 'p21'], ['ml', 'mr'], ['ml'], ['mr']],
 )
 
 # ---- diamond with groups and a by-name / InputTaskParameter wiring
@@ -124,8 +128,12 @@ family(
                                                   dict(ns=None, values={}, tasks=['b'])]),
         'top2': dict(build='uses-common', mounts=[dict(ns=None, values={'x': 5}, tasks=['a', 'm'], cfg='common'),
                                                   dict(ns=None, values={}, tasks=['b'])]),
+        # two PARTS of one multi-config file (exp.yaml#small, exp.yaml#large): two configurations, two config names
+        'exp#small': dict(build='multi-part', mounts=[dict(ns=None, values={'x': 7})]),
+        'exp#large': dict(build='multi-part', mounts=[dict(ns=None, values={'x': 8})]),
     },
-    lists=[['model'], ['model.large'], ['model_x'], ['model', 'model.large'], ['top1'], ['top2'], ['top1', 'top2']],
+    lists=[['model'], ['model.large'], ['model_x'], ['model', 'model.large'], ['top1'], ['top2'], ['top1', 'top2'],
+           ['exp#small'], ['exp#large'], ['exp#small', 'exp#large']],
 )
 
 # ---- deep: a <- b <- c <- e, the configurations differ only at the far end (chain-specific task below shared ones)
@@ -262,6 +270,8 @@ def config_name(rcname, rc, i):
     b = rc['build']
     if b == 'nested-files':
         return rcname if i == 0 else f'{rcname}_m{i}'
+    if b == 'multi-part':
+        return rcname
     return {'dict': rcname, 'file': rcname, 'context': f'{rcname}_pipe', 'mounts-files': f'{rcname}_m{i}',
             'mounts-ctx': f'{rcname}_pipe', 'mounts-ctx-multi': f'{rcname}#pipe', 'uses-common': rcname}[b]
 
@@ -420,6 +430,15 @@ def build_config(fam, rcname, base_dir, workdir, variant=0):
         root = workdir / f'{rcname}.json'
         root.write_text(json.dumps({'uses': uses}))
         return Config(base_dir, root)
+    if build == 'multi-part':
+        import yaml
+        stem, part = rcname.split('#')
+        parts = {r.split('#')[1]: fam['rcs'][r]['mounts'][0]['values'] for r in fam['rcs'] if r.startswith(stem + '#')}
+        shared = workdir.parent / f'multi_{stem}'      # ONE file for all its parts, whichever configuration is built
+        shared.mkdir(parents=True, exist_ok=True)
+        f = shared / f'{stem}.yaml'
+        f.write_text(yaml.safe_dump({'configs': {k: {'tasks': strings, **v} for k, v in parts.items()}}, sort_keys=False))
+        return Config(base_dir, f'{f}#{part}')
     if build == 'mounts-ctx-multi':
         import yaml
         root = workdir / f'{rcname}.yaml'
